@@ -54,9 +54,12 @@ def check(ctx, tier):
     truncation(ctx, tk)
     mask_rule(ctx, tk)
     pack_rules(ctx, tk)
+    window_mask_order(ctx, tk)
     fs = [cls.methods[n] for n in ("pack", "unpack", "__getitem__", "sliding_window")]
     tk.purity("C13.e", fs, "packing and reading do not modify the caller's arrays or the packed data", content_only=True)
     W.report(ctx, tk, "C13.f", fs + [cls.methods["__init__"]])
+    from .. import hazards as _hz, scopes as _sc
+    _hz.generic(ctx, tk, "C13.z", _sc.scope(tk, "C13"))
     return {}
 
 
@@ -180,3 +183,24 @@ def pack_rules(ctx, tk):
             ok = attr_chain(c.a[1][1]) == (g.params[0], "_bit_stride")
             ctx.decide("C13.d", g, "a position-list selection is repacked with the array's own bit stride", True if ok else (False if c.a[1][1].k == "const" else None),
                        "repacked with %s" % (c.a[1][1],), node=c.node, engine="E6")
+
+
+def window_mask_order(ctx, tk):
+    g = ctx.func(BA + "sliding_window")
+    ga = ctx.fa(g)
+    ors = [n for n in ga.cfg.stmts() if n.kind == "stmt" and isinstance(n.ast, ast.AugAssign) and isinstance(n.ast.op, ast.BitOr)]
+    ands = [n for n in ga.cfg.stmts() if n.kind == "stmt" and ((isinstance(n.ast, ast.AugAssign) and isinstance(n.ast.op, ast.BitAnd)) or
+            (isinstance(n.ast, (ast.Assign, ast.Return)) and n.ast.value is not None and any(isinstance(x, ast.BinOp) and isinstance(x.op, ast.BitAnd) for x in ast.walk(n.ast.value))))]
+    what = "windows are masked to the window width after the bits of the next register were OR-ed in"
+    if not ors:
+        ctx.unknown("C13.c", g, what, "cross-register OR not recognised", engine="E1")
+    else:
+        ok = all(all(ga.cfg.must_pass([a for a in ands if a is not o], r, start=o) for r in ga.cfg.returns()) for o in ors)
+        ctx.decide("C13.c", g, what, True if ok else False, "no mask is applied after the cross-register OR: digits of the next register beyond the window width leak into the window",
+                   node=ors[0].ast, key="mask-after-or", engine="E1")
+    f = ctx.func(BA + "unpack")
+    fa = ctx.fa(f)
+    for n, c in find_calls(fa, lambda c: np_call(c, {"unpackbits"})):
+        bo = dict(c.a[2]).get("bitorder")
+        ctx.decide("C13.b", f, "entries are unpacked least-significant first (the order pack() shifts them in)", True if (bo is not None and is_const(bo, "little")) else False,
+                   "np.unpackbits defaults to bitorder='big': the entries of every byte come back reversed", node=c.node, key="bitorder", engine="KB")
